@@ -1317,9 +1317,20 @@ func MustDerive(v ssa.Value, pred func(ssa.Value) bool, throughCalls bool) bool 
 // values the comparison admits on it satisfy pred. nonNegative says that the
 // value is known to be >= 0 (a length or count).
 func IntCmpConstEdges(fn *ssa.Function, isX func(ssa.Value) bool, nonNegative bool, pred func(lo, hi int64) bool) map[Edge]bool {
-	const inf = int64(1) << 62
 	out := map[Edge]bool{}
-	flip := map[token.Token]token.Token{token.LSS: token.GTR, token.GTR: token.LSS, token.LEQ: token.GEQ, token.GEQ: token.LEQ, token.EQL: token.EQL, token.NEQ: token.NEQ}
+	sat := func(ivs [][2]int64) bool {
+		all, any := true, false
+		for _, v := range ivs {
+			if v[0] > v[1] {
+				continue // empty
+			}
+			any = true
+			if !pred(v[0], v[1]) {
+				all = false
+			}
+		}
+		return all && any
+	}
 	for _, b := range fn.Blocks {
 		if len(b.Instrs) == 0 {
 			continue
@@ -1328,67 +1339,77 @@ func IntCmpConstEdges(fn *ssa.Function, isX func(ssa.Value) bool, nonNegative bo
 		if !ok {
 			continue
 		}
-		cond, neg := StripNot(iff.Cond)
-		bo, ok := cond.(*ssa.BinOp)
-		if !ok {
+		if onTrue, onFalse, ok := intCmpIntervals(iff.Cond, isX, nonNegative); ok {
+			if sat(onTrue) {
+				out[Edge{Block: b.Index, Succ: 0}] = true
+			}
+			if sat(onFalse) {
+				out[Edge{Block: b.Index, Succ: 1}] = true
+			}
 			continue
 		}
-		op := bo.Op
-		var k int64
-		if kk, isK := ConstInt(bo.Y); isK && isX(bo.X) {
-			k = kk
-		} else if kk, isK := ConstInt(bo.X); isK && isX(bo.Y) {
-			k = kk
-			op = flip[op]
-			if op == 0 {
-				continue
-			}
-		} else {
-			continue
-		}
-		min := -inf
-		if nonNegative {
-			min = 0
-		}
-		for succ, truth := range []bool{true, false} {
-			if neg {
-				truth = !truth
-			}
-			// the interval(s) of x on this edge; NEQ true / EQL false give two intervals
-			type iv struct{ lo, hi int64 }
-			var ivs []iv
-			switch {
-			case op == token.EQL && truth, op == token.NEQ && !truth:
-				ivs = []iv{{k, k}}
-			case op == token.EQL && !truth, op == token.NEQ && truth:
-				ivs = []iv{{min, k - 1}, {k + 1, inf}}
-			case op == token.LSS && truth, op == token.GEQ && !truth:
-				ivs = []iv{{min, k - 1}}
-			case op == token.LEQ && truth, op == token.GTR && !truth:
-				ivs = []iv{{min, k}}
-			case op == token.GTR && truth, op == token.LEQ && !truth:
-				ivs = []iv{{k + 1, inf}}
-			case op == token.GEQ && truth, op == token.LSS && !truth:
-				ivs = []iv{{k, inf}}
-			default:
-				continue
-			}
-			all, any := true, false
-			for _, v := range ivs {
-				if v.lo > v.hi {
-					continue // empty
-				}
-				any = true
-				if !pred(v.lo, v.hi) {
-					all = false
-				}
-			}
-			if all && any {
-				out[Edge{Block: b.Index, Succ: succ}] = true
+		// a conjunction kept in a variable: `ok := a && x >= 0; if ok`: the true edge establishes x >= 0
+		if x, isAnd := AndPhiOperand(iff); isAnd {
+			if onTrue, _, ok := intCmpIntervals(x, isX, nonNegative); ok && sat(onTrue) {
+				out[Edge{Block: b.Index, Succ: 0}] = true
 			}
 		}
 	}
 	return out
+}
+
+// intCmpIntervals: for a condition comparing the integer matched by isX with a
+// constant, the intervals of that integer when the condition is true / false.
+func intCmpIntervals(condV ssa.Value, isX func(ssa.Value) bool, nonNegative bool) (onTrue, onFalse [][2]int64, ok bool) {
+	const inf = int64(1) << 62
+	flip := map[token.Token]token.Token{token.LSS: token.GTR, token.GTR: token.LSS, token.LEQ: token.GEQ, token.GEQ: token.LEQ, token.EQL: token.EQL, token.NEQ: token.NEQ}
+	cond, neg := StripNot(condV)
+	bo, isBo := cond.(*ssa.BinOp)
+	if !isBo {
+		return nil, nil, false
+	}
+	op := bo.Op
+	var k int64
+	if kk, isK := ConstInt(bo.Y); isK && isX(bo.X) {
+		k = kk
+	} else if kk, isK := ConstInt(bo.X); isK && isX(bo.Y) {
+		k = kk
+		op = flip[op]
+		if op == 0 {
+			return nil, nil, false
+		}
+	} else {
+		return nil, nil, false
+	}
+	min := -inf
+	if nonNegative {
+		min = 0
+	}
+	side := func(truth bool) [][2]int64 {
+		switch {
+		case op == token.EQL && truth, op == token.NEQ && !truth:
+			return [][2]int64{{k, k}}
+		case op == token.EQL && !truth, op == token.NEQ && truth:
+			return [][2]int64{{min, k - 1}, {k + 1, inf}}
+		case op == token.LSS && truth, op == token.GEQ && !truth:
+			return [][2]int64{{min, k - 1}}
+		case op == token.LEQ && truth, op == token.GTR && !truth:
+			return [][2]int64{{min, k}}
+		case op == token.GTR && truth, op == token.LEQ && !truth:
+			return [][2]int64{{k + 1, inf}}
+		case op == token.GEQ && truth, op == token.LSS && !truth:
+			return [][2]int64{{k, inf}}
+		}
+		return nil
+	}
+	t, f := side(true), side(false)
+	if t == nil || f == nil {
+		return nil, nil, false
+	}
+	if neg {
+		t, f = f, t
+	}
+	return t, f, true
 }
 
 // LenZeroEdges returns the edges on which len(x) == 0 is known, for the x
@@ -1455,4 +1476,70 @@ func SameExpr(a, b ssa.Value) bool {
 		return ok && SameExpr(x.X, y.X)
 	}
 	return false
+}
+
+// AndPhiOperand recognises the SSA shape of a conjunction kept in a variable
+// or used as a condition: the If's condition is a φ of the If's own block that
+// is the constant false on all incoming edges but one. It returns that one
+// operand X: on the If's TRUE edge X was true (the false edge says nothing).
+func AndPhiOperand(iff *ssa.If) (ssa.Value, bool) {
+	cond, neg := StripNot(iff.Cond)
+	phi, ok := cond.(*ssa.Phi)
+	if !ok || neg || phi.Block() != iff.Block() {
+		return nil, false
+	}
+	var x ssa.Value
+	for _, e := range phi.Edges {
+		if k, isK := e.(*ssa.Const); isK && k.Value != nil && k.Value.String() == "false" {
+			continue
+		}
+		if x != nil {
+			return nil, false
+		}
+		x = e
+	}
+	return x, x != nil
+}
+
+// CondEdgesPhi is CondEdges plus the true edges of conjunction-φ conditions
+// one of whose conjuncts is classified as holding when true. The result must
+// only be used positively (as edges that establish the condition), never
+// complemented: the false edge of `a && X` does not establish !X.
+func CondEdgesPhi(fn *ssa.Function, classify func(cond ssa.Value) (match bool, whenTrue bool)) map[Edge]bool {
+	out := CondEdges(fn, classify)
+	for _, b := range fn.Blocks {
+		if len(b.Instrs) == 0 {
+			continue
+		}
+		iff, ok := b.Instrs[len(b.Instrs)-1].(*ssa.If)
+		if !ok {
+			continue
+		}
+		// nested conjunctions: X may itself be a φ of an earlier block
+		x, ok := AndPhiOperand(iff)
+		for depth := 0; ok && depth < 4; depth++ {
+			cond, neg := StripNot(x)
+			if match, whenTrue := classify(cond); match && whenTrue != neg {
+				out[Edge{Block: b.Index, Succ: 0}] = true
+			}
+			inner, isPhi := cond.(*ssa.Phi)
+			if !isPhi || neg {
+				break
+			}
+			var nx ssa.Value
+			n := 0
+			for _, e := range inner.Edges {
+				if k, isK := e.(*ssa.Const); isK && k.Value != nil && k.Value.String() == "false" {
+					continue
+				}
+				nx = e
+				n++
+			}
+			if n != 1 {
+				break
+			}
+			x = nx
+		}
+	}
+	return out
 }
